@@ -145,9 +145,10 @@ def check_fai_text(ctx, count):
             for k in range(rng.randint(1, 4)):
                 # names as index_fasta_file can produce them: any bytes but ASCII white space, decoded as UTF-8 — including characters
                 # that are white space / line boundaries for `str` methods but not for `bytes.split()`
-                odd = rng.choice(["", "", "", "\x1c", "\x1f", "\xa0", "\x85", "\u2028", "\u3000", "é", "#", "|"])
+                odd = rng.choice(["", "", "", "\x1c", "\x1f", "\xa0", "\x85", "\u2028", "\u3000", "é", "#", "|", '"', "'", ",", ";", "\\"])
                 rows.append([rng.choice(["chr", "s", "HAP1_SCAFFOLD_"]) + odd + str(k + 1), rng.randint(0, 10**12), rng.randint(0, 10**12), rng.randint(0, 80), rng.randint(0, 82)])
-            lines = [FastaInfo(*r[1:]).fai_row(r[0]) for r in rows]
+            # the faidx format itself (spec side): five tab-separated columns, one line per record — NOT built with the code under test
+            lines = ["\t".join([r[0]] + [str(x) for x in r[1:]]) + "\n" for r in rows]
             mal = rng.random() < 0.35
             if mal and lines:
                 j = rng.randrange(len(lines))
@@ -177,8 +178,24 @@ def check_fai_text(ctx, count):
                 real_load = {"ok": [[n, x.length, x.file_offset, x.residues_per_line, x.max_line_length] for n, x in fai.index.items()]}
             except Exception as e:
                 real_load = {"err": conv.errkind(e)}
+            # what write_index() puts on disk for these index entries (observed at <fasta>.fai)
+            p2 = sc.path / f"w{i}.fa"
+            p2.write_bytes(b">x\nA\n")
+            fw = FastaIndex(p2)
+            try:
+                fw.index = {r[0]: FastaInfo(*r[1:]) for r in rows}
+                fw.write_index()
+                written = fw.fai_file.read_bytes().decode("utf-8")
+                real_rows = [l + "\n" for l in written.split("\n")[:-1]] if written.endswith("\n") else ["<no final newline>", written]
+            except Exception as e:
+                real_rows = ["<write_index raised " + conv.errkind(e) + ">"]
+            names = [r[0] for r in rows]
+            spec_rows = ["\t".join([r[0]] + [str(x) for x in r[1:]]) + "\n" for r in rows] if len(set(names)) == len(names) else None
             reqs.append({"id": 0, "kind": "fai", "lines": lines, "index": rows})
-            meta.append(({"lines": lines, "rows": rows}, {"load": real_load, "rows": [FastaInfo(*r[1:]).fai_row(r[0]) for r in rows]}, mal))
+            meta.append(({"lines": lines, "rows": rows}, {"load": real_load, "rows": real_rows if spec_rows is not None else [l for l in ["\t".join([r[0]] + [str(x) for x in r[1:]]) + "\n" for r in rows]]}, mal))
+            if spec_rows is not None and real_rows != spec_rows:
+                out.oracle_fail("fai-text", {"lines": lines, "rows": rows}, "the .fai written for these index entries is not the faidx format (name, length, offset, residues per line, bytes per line; tab separated)",
+                                detail={"written": real_rows[:4], "expected": spec_rows[:4]})
     ms = ctx.driver.batch(reqs) if ctx.driver else [None] * len(reqs)
     for (inp, real, mal), m in zip(meta, ms):
         key = ("fai", len(inp["lines"]), mal, "err" in real["load"])
